@@ -32,6 +32,10 @@ class _VSelector:
 
     def select(self, timeout=None):
         loop = self._loop
+        if _WATCHDOG["fired"] and not _WATCHDOG["draining"]:
+            # the watchdog fired inside some task, which only ended THAT task: a run that keeps yielding (a client that
+            # lists a directory inside itself for ever) is ended here, from the loop itself
+            raise WallClockExceeded("the run did not end within its wall-clock budget (watchdog fired %d time(s))" % _WATCHDOG["fired"])
         if timeout is not None and timeout <= 0:
             return self._real.select(0)
         ev = self._real.select(0)
@@ -179,7 +183,7 @@ class VLoop(asyncio.SelectorEventLoop):
         return self.run_until_complete(runner())
 
 
-_WATCHDOG = {"fired": 0}
+_WATCHDOG = {"fired": 0, "draining": False}
 
 
 class WallClockExceeded(BaseException):
@@ -229,8 +233,9 @@ def run(coro_fn, *args, **kw):
 
     SeqTask._salt = int(kw.pop("task_salt", os.environ.get("VERIF_TASK_SALT", "0")))
     loop = VLoop()
-    limit = float(os.environ.get("VERIF_WALL_LIMIT", "180"))
+    limit = float(kw.pop("wall_limit", None) or os.environ.get("VERIF_WALL_LIMIT", "180"))
     _WATCHDOG["fired"] = 0
+    _WATCHDOG["draining"] = False
     old = _arm_watchdog(limit)
     try:
         asyncio.set_event_loop(loop)
@@ -240,6 +245,7 @@ def run(coro_fn, *args, **kw):
         return out
     finally:
         _disarm_watchdog(old)
+        _WATCHDOG["draining"] = True
         try:
             # cancel leftovers so that the loop closes quietly
             pend = [t for t in asyncio.all_tasks(loop) if not t.done()]
